@@ -84,7 +84,7 @@ theorem applyU_append (ns : List RNode) (a b : List Upd) : applyU ns (a ++ b) = 
 
 /-- two blocks of updates whose functions commute can be exchanged -/
 theorem applyU_comm (us vs : List Upd) (hu : CoordPres us) (hv : CoordPres vs)
-    (hcomm : ∀ u ∈ us, ∀ v ∈ vs, ∀ n, u.2 (v.2 n) = v.2 (u.2 n)) {ns : List RNode} (h : SortedR ns) :
+    (hcomm : ∀ u ∈ us, ∀ v ∈ vs, u.1 = v.1 → ∀ n, u.2 (v.2 n) = v.2 (u.2 n)) {ns : List RNode} (h : SortedR ns) :
     applyU (applyU ns us) vs = applyU (applyU ns vs) us := by
   apply sortedR_ext (applyU_sorted vs _ hv (applyU_sorted us _ hu h)) (applyU_sorted us _ hu (applyU_sorted vs _ hv h))
   intro c
@@ -92,7 +92,7 @@ theorem applyU_comm (us vs : List Upd) (hu : CoordPres us) (hv : CoordPres vs)
     findR_applyU c us _ hu (applyU_sorted vs _ hv h), findR_applyU c vs _ hv h]
   generalize findR c ns = o
   -- commute the two folds
-  have one : ∀ (vs : List Upd) (u : Upd), (∀ v ∈ vs, ∀ n, u.2 (v.2 n) = v.2 (u.2 n)) →
+  have one : ∀ (vs : List Upd) (u : Upd), (∀ v ∈ vs, u.1 = v.1 → ∀ n, u.2 (v.2 n) = v.2 (u.2 n)) →
       (∀ n, (u.2 n).coord = n.coord) → (∀ v ∈ vs, ∀ n, (v.2 n).coord = n.coord) →
       ∀ o, vs.foldl (stepF c) (stepF c o u) = stepF c (vs.foldl (stepF c) o) u := by
     intro vs
@@ -106,7 +106,7 @@ theorem applyU_comm (us vs : List Upd) (hu : CoordPres us) (hv : CoordPres vs)
         by_cases h1 : c = u.1
         · by_cases h2 : c = v.1
           · simp only [if_pos h1, if_pos h2, Option.getD_some]
-            rw [hc v (List.mem_cons_self ..)]
+            rw [hc v (List.mem_cons_self ..) (h1.symm.trans h2)]
           · simp only [if_pos h1, if_neg h2]
         · by_cases h2 : c = v.1
           · simp only [if_neg h1, if_pos h2]
@@ -290,7 +290,7 @@ theorem SlotUpds.coordPres {idx : Nat} {us : List Upd} (h : SlotUpds idx us) : C
 theorem slotUpds_comm {us vs : List Upd} (hu : SlotUpds 0 us) (hv : SlotUpds 1 vs) {ns : List RNode}
     (h : SortedR ns) : applyU (applyU ns us) vs = applyU (applyU ns vs) us := by
   apply applyU_comm us vs hu.coordPres hv.coordPres _ h
-  intro u hu' v hv' n
+  intro u hu' v hv' _ n
   obtain ⟨f, hf⟩ := hu u hu'
   obtain ⟨g, hg⟩ := hv v hv'
   rw [hf, hg]
